@@ -397,8 +397,11 @@ def b64_decode_rule(rep, mod):
             rep.inst('R-B64GROUP', 'igris::base64_decode', 'regroup%d:byte%d' % (n, k), ok, i.where(),
                      None if ok else 'decoded byte %d is %s; RFC 4648 requires %s' % (
                          k, ['^'.join(sorted(x)) or '0' for x in (got or [])], ['^'.join(sorted(x)) for x in want[k]]))
-    rep.inst('R-B64GROUP', 'igris::base64_decode', 'regrouping-blocks-found', n >= 2, where,
-             None if n >= 2 else 'expected the full-group and the tail regrouping blocks, found %d' % n)
+    if n < 2:
+        # the number of bytes produced per quartet / tail is decided semantically by c18_len (R-B64DECLEN); a regrouping that
+        # is not recognised here is an analysis limit, not a violation
+        raise AnalysisBroken('base64_decode: expected the full-group and the tail regrouping blocks, recognised %d' % n)
+    rep.inst('R-B64GROUP', 'igris::base64_decode', 'regrouping-blocks-found', True, where)
 
 
 def replace_pairs(f):
@@ -569,7 +572,10 @@ def run(rep, repo, tier):
         b64_encode_rule(rep, modb)
     except AnalysisBroken as e:
         rep.defer_broken(e)      # the length / loop-structure rules of c18_len may still decide the change
-    b64_decode_rule(rep, modb)
+    try:
+        b64_decode_rule(rep, modb)
+    except AnalysisBroken as e:
+        rep.defer_broken(e)
     modbp = compile_ir(repo + '/igris/util/base64.cpp', repo, inline=keep_all_but_new_helpers(('is_base64',)))
     url_rule(rep, modbp)
     try:
